@@ -348,6 +348,39 @@ class SIntList(SVal):
     __hash__ = SVal.__hash__
 
 
+OidSort = z3.DeclareSort("Oid")
+ENCOID = z3.Function("enc_oid", OidSort, Bytes)      # the DER encoding (tag, length, sub-identifiers) of an OBJECT IDENTIFIER value
+_OID_CONSTS = {}
+
+
+class SOid(SVal):
+    """an OBJECT IDENTIFIER value of unknown length (tuple of arcs): only equality with concrete OIDs and its DER
+    encoding are observable"""
+    __hash__ = SVal.__hash__
+
+
+def oid_const(t):
+    """the Oid constant standing for the concrete tuple t"""
+    t = tuple(t)
+    if t not in _OID_CONSTS:
+        _OID_CONSTS[t] = z3.Const("oid_" + "_".join(str(a) for a in t), OidSort)
+    return _OID_CONSTS[t]
+
+
+def oid_facts():
+    """distinct concrete OIDs are distinct values with the encodings the specification encoder gives them"""
+    from spec import der as _S
+    cs = list(_OID_CONSTS.items())
+    facts = []
+    if len(cs) > 1:
+        facts.append(z3.Distinct(*[c for _, c in cs]))
+    for t, c in cs:
+        facts.append(ENCOID(c) == lit(_S.enc_oid(t)))
+    o1, o2 = z3.Const("oid!a", OidSort), z3.Const("oid!b", OidSort)
+    facts.append(z3.ForAll([o1, o2], z3.Implies(ENCOID(o1) == ENCOID(o2), o1 == o2), patterns=[z3.MultiPattern(ENCOID(o1), ENCOID(o2))], qid="enc_oid_injective"))
+    return facts
+
+
 # ----------------------------------------------------------------------------
 # dual-semantics functions
 
@@ -378,7 +411,13 @@ def at(s, i):
     return SInt(AT(T(s), T(i)))
 
 
-def cat(*parts):
+def catf(*parts):
+    """concatenation in canonical (flattened, right-nested) form: associativity by construction.  Used where a byte
+    string is accumulated piecewise (HMAC message buffers); structural encodings use cat(), which keeps sub-terms intact"""
+    return cat(*parts, flatten=True)
+
+
+def cat(*parts, flatten=False):
     parts = [p for p in parts if not (isinstance(p, (bytes, bytearray)) and len(p) == 0)]
     if not parts:
         return b""
@@ -393,12 +432,13 @@ def cat(*parts):
             fl(t.arg(1))
         else:
             flat.append(SBytes(t))
-    for p in parts:
-        if isinstance(p, SBytes):
-            fl(p.t)
-        else:
-            flat.append(p)
-    parts = flat
+    if flatten:
+        for p in parts:
+            if isinstance(p, SBytes):
+                fl(p.t)
+            else:
+                flat.append(p)
+        parts = flat
     # fold concrete neighbours
     out = []
     for p in parts:
